@@ -2,7 +2,8 @@
 """C11 - a signature's md5 identity is a function of its current content only."""
 import os, sys
 sys.path.insert(0, os.path.dirname(os.path.abspath(__file__)))
-import mhprop
+sys.path.insert(0, os.path.dirname(os.path.dirname(os.path.abspath(__file__))))
+import streamlib
 from streams import mh
 
 TB = [
@@ -17,4 +18,4 @@ RULE = ("mh-stream histories with ~30% md5 queries (direct and via a signature) 
         "non-trivial = >= 3 state-changing ops; distinct = distinct op lists")
 
 if __name__ == "__main__":
-    mhprop.run("C11", ["md5", "md5", "setops"], mh.oracle_md5, 1500, 60000, TB, AS, RULE)
+    streamlib.run_property("C11", mh, ["md5", "md5", "setops"], mh.oracle_md5, 1500, 60000, TB, AS, RULE, nontrivial=mh.nontrivial)
